@@ -1408,4 +1408,285 @@ theorem tablesOf_readLog (fixed : Bool) (file : List Rec) (res : Result) (h : re
         exact ⟨groups, by simp [tablesOf, hn, hg, idColName], rfl⟩
 
 
+
+/-! ### phase 3: records logged more than once -/
+
+section
+variable {α β γ : Type} [DecidableEq α]
+
+theorem upsert_map (f : β → γ) (k : α) (v : β) (l : List (α × β)) :
+    upsert k (f v) (l.map (fun p => (p.1, f p.2))) = (upsert k v l).map (fun p => (p.1, f p.2)) := by
+  induction l with
+  | nil => simp [upsert]
+  | cons p l ih =>
+    obtain ⟨k', v'⟩ := p
+    by_cases h : k' = k <;> simp [upsert, h, ih]
+
+theorem foldl_upsert_map (f : β → γ) (l acc : List (α × β)) :
+    (l.map (fun p => (p.1, f p.2))).foldl (fun a kv => upsert kv.1 kv.2 a) (acc.map (fun p => (p.1, f p.2)))
+      = (l.foldl (fun a kv => upsert kv.1 kv.2 a) acc).map (fun p => (p.1, f p.2)) := by
+  induction l generalizing acc with
+  | nil => simp
+  | cons p l ih => simp only [List.map_cons, List.foldl_cons, upsert_map, ih]
+
+theorem lastWins_map (f : β → γ) (l : List (α × β)) :
+    lastWins (l.map (fun p => (p.1, f p.2))) = (lastWins l).map (fun p => (p.1, f p.2)) := by
+  simpa [lastWins] using foldl_upsert_map f l []
+
+theorem lookup_upsert [BEq α] [LawfulBEq α] (k k' : α) (v : β) (l : List (α × β)) :
+    (upsert k v l).lookup k' = if k' = k then some v else l.lookup k' := by
+  induction l with
+  | nil =>
+    by_cases h : k' = k
+    · subst h; simp [upsert, List.lookup]
+    · have hb : (k' == k) = false := by simpa using h
+      simp [upsert, List.lookup, h, hb]
+  | cons p l ih =>
+    obtain ⟨k₁, v₁⟩ := p
+    by_cases h1 : k₁ = k
+    · subst h1
+      by_cases h : k' = k₁
+      · subst h; simp [upsert, List.lookup]
+      · have hb : (k' == k₁) = false := by simpa using h
+        simp [upsert, List.lookup, h, hb]
+    · by_cases h : k' = k
+      · subst h
+        have hb : (k' == k₁) = false := by simpa using fun e : k' = k₁ => h1 e.symm
+        simp [upsert, h1, List.lookup, hb, ih]
+      · by_cases h2 : k' = k₁
+        · subst h2; simp [upsert, h1, List.lookup]
+        · have hb : (k' == k₁) = false := by simpa using h2
+          simp [upsert, h1, List.lookup, hb, ih, h]
+
+theorem mem_upsert (k : α) (v : β) (l : List (α × β)) (p : α × β) (h : p ∈ upsert k v l) : p ∈ l ∨ p = (k, v) := by
+  induction l with
+  | nil => simp [upsert] at h; exact Or.inr h
+  | cons q l ih =>
+    obtain ⟨k₁, v₁⟩ := q
+    by_cases h1 : k₁ = k
+    · simp only [upsert, h1, if_true, List.mem_cons] at h
+      rcases h with h | h
+      · exact Or.inr (by rw [h])
+      · exact Or.inl (List.mem_cons_of_mem _ h)
+    · simp only [upsert, h1, if_false, List.mem_cons] at h
+      rcases h with h | h
+      · exact Or.inl (by simp [h])
+      · rcases ih h with h | h
+        · exact Or.inl (List.mem_cons_of_mem _ h)
+        · exact Or.inr h
+
+theorem mem_foldl_upsert (l acc : List (α × β)) (p : α × β)
+    (h : p ∈ l.foldl (fun a kv => upsert kv.1 kv.2 a) acc) : p ∈ acc ∨ p ∈ l := by
+  induction l generalizing acc with
+  | nil => exact Or.inl h
+  | cons q l ih =>
+    simp only [List.foldl_cons] at h
+    rcases ih _ h with h | h
+    · rcases mem_upsert _ _ _ _ h with h | h
+      · exact Or.inl h
+      · exact Or.inr (by simp [h])
+    · exact Or.inr (List.mem_cons_of_mem _ h)
+
+theorem mem_lastWins (l : List (α × β)) (p : α × β) (h : p ∈ lastWins l) : p ∈ l := by
+  rcases mem_foldl_upsert l [] p h with h | h
+  · simp at h
+  · exact h
+
+/-- the value `lastWins` keeps for a key is the one of its last entry -/
+theorem foldl_upsert_lookup [BEq α] [LawfulBEq α] (l acc : List (α × β)) (k : α) :
+    (l.foldl (fun a kv => upsert kv.1 kv.2 a) acc).lookup k
+      = match l.reverse.lookup k with | some v => some v | none => acc.lookup k := by
+  induction l generalizing acc with
+  | nil => simp
+  | cons p l ih =>
+    obtain ⟨k₁, v₁⟩ := p
+    simp only [List.foldl_cons, ih, lookup_upsert, List.reverse_cons]
+    cases hl : l.reverse.lookup k with
+    | some v => simp [List.lookup_append, hl]
+    | none =>
+      by_cases h : k = k₁
+      · subst h; simp [List.lookup_append, hl, List.lookup]
+      · have : (k == k₁) = false := by simpa using h
+        simp [List.lookup_append, hl, List.lookup, this, h]
+
+theorem lastWins_lookup [BEq α] [LawfulBEq α] (l : List (α × β)) (k : α) :
+    (lastWins l).lookup k = l.reverse.lookup k := by
+  rw [lastWins, foldl_upsert_lookup]
+  cases l.reverse.lookup k <;> simp
+
+theorem upsert_keys_nodup (k : α) (v : β) (l : List (α × β)) (h : (l.map (·.1)).Nodup) : ((upsert k v l).map (·.1)).Nodup := by
+  by_cases hk : k ∈ l.map (·.1)
+  · have : (upsert k v l).map (·.1) = l.map (·.1) := by
+      clear h
+      induction l with
+      | nil => simp at hk
+      | cons p l ih =>
+        obtain ⟨k₁, v₁⟩ := p
+        by_cases h1 : k₁ = k
+        · simp [upsert, h1]
+        · have hk' : k ∈ l.map (·.1) := by
+            simp only [List.map_cons, List.mem_cons] at hk
+            rcases hk with hk | hk
+            · exact absurd hk.symm h1
+            · exact hk
+          simp [upsert, h1, ih hk']
+    rw [this]; exact h
+  · rw [upsert_not_mem k v l hk]
+    simp only [List.map_append, List.map_cons, List.map_nil]
+    rw [List.nodup_append]
+    refine ⟨h, by simp, ?_⟩
+    intro a ha b hb
+    simp only [List.mem_singleton] at hb
+    subst hb
+    rintro rfl
+    exact hk ha
+
+theorem lastWins_keys_nodup (l : List (α × β)) : ((lastWins l).map (·.1)).Nodup := by
+  unfold lastWins
+  suffices h : ∀ acc : List (α × β), (acc.map (·.1)).Nodup → ((l.foldl (fun a kv => upsert kv.1 kv.2 a) acc).map (·.1)).Nodup from h [] (by simp)
+  induction l with
+  | nil => intro acc h; simpa
+  | cons p l ih => intro acc h; simp only [List.foldl_cons]; exact ih _ (upsert_keys_nodup _ _ _ h)
+end
+
+theorem foldl_mergeInter_eq (l acc : List (List Int × Packed)) (h3 : ∀ ic ∈ l, ic.1.length = 3) :
+    l.foldl mergeInter acc = l.foldl (fun a kv => upsert kv.1 kv.2 a) acc := by
+  induction l generalizing acc with
+  | nil => rfl
+  | cons ic l ih =>
+    have hl : ic.1.length = 3 := h3 ic (by simp)
+    simp only [List.foldl_cons]
+    rw [ih _ (fun x hx => h3 x (by simp [hx]))]
+    congr 1
+    simp [mergeInter, hl]
+
+/-- [phase 3] logs in which triples are recorded more than once: the last record of a triple counts -/
+theorem interactions_encode_lw (rnd : Rat → Rat) (txs : List Tx) (hw : ∀ ir ∈ t4sOf txs, WellFormed ir) :
+    interTable true (interRecs (txs.map (encodeTx rnd true))) = .ok (specInteractionsLW rnd txs) := by
+  unfold interRecs specInteractionsLW
+  rw [intersOf_encode]
+  rw [foldl_mergeInter_eq _ [] (by intro ic hic; simp only [List.mem_map] at hic; obtain ⟨ir, hir, rfl⟩ := hic; exact hw ir hir)]
+  have := lastWins_map (fun rows => packedOf rnd true rows) (t4sOf txs)
+  simp only [lastWins] at this
+  rw [this, sortBy_map (fun ir : List Int × List PyDict => (ir.1, packedOf rnd true ir.2)) ltTriP ltTri (by intro a b; rfl)]
+  apply interTable_spec
+  intro ir hir
+  exact hw ir (mem_lastWins _ _ ((sortBy_perm ltTriP _).mem_iff.mp hir))
+
+theorem lastWins_of_nodup (l : List (List Int × List PyDict)) (h : (l.map (·.1)).Nodup) : lastWins l = l := by
+  unfold lastWins
+  suffices hh : ∀ acc : List (List Int × List PyDict), (∀ ic ∈ l, ic.1 ∉ acc.map (·.1)) →
+      l.foldl (fun a kv => upsert kv.1 kv.2 a) acc = acc ++ l by simpa using hh [] (by simp)
+  induction l with
+  | nil => intro acc _; simp
+  | cons ic l ih =>
+    intro acc hdis
+    simp only [List.map_cons, List.nodup_cons] at h
+    simp only [List.foldl_cons]
+    rw [upsert_not_mem _ _ _ (hdis ic (by simp)), ih h.2]
+    · simp
+    · intro jc hj
+      simp only [List.map_append, List.map_cons, List.map_nil, List.mem_append, List.mem_singleton, not_or]
+      refine ⟨hdis jc (by simp [hj]), ?_⟩
+      intro e
+      exact h.1 (e ▸ List.mem_map_of_mem hj)
+
+
+
+
+theorem mem_of_lookup {α β} [BEq α] [LawfulBEq α] (k : α) (v : β) (l : List (α × β)) (h : l.lookup k = some v) : (k, v) ∈ l := by
+  induction l with
+  | nil => simp at h
+  | cons p l ih =>
+    obtain ⟨k₁, v₁⟩ := p
+    by_cases hk : k = k₁
+    · subst hk; simp [List.lookup] at h; simp [h]
+    · have hb : (k == k₁) = false := by simpa using hk
+      simp [List.lookup, hb] at h
+      exact List.mem_cons_of_mem _ (ih h)
+
+def tupRow (r : Row) : Row := r.map (fun kv => (kv.1, tupTop kv.2))
+
+def getRow (o : Option Row) : Row := match o with | some r => r | none => []
+
+theorem mergeComp_lookup (acc : List (Int × Row)) (ip : Int × Row) (id : Int) :
+    (mergeComp acc ip).lookup id
+      = if id = ip.1 then some (update (getRow (acc.lookup ip.1)) (tupRow ip.2)) else acc.lookup id := by
+  unfold mergeComp
+  simp only
+  rw [lookup_upsert]
+  rfl
+
+/-- the row kept for an id is the union, in log order, of all its records (on top of what was there) -/
+theorem foldl_mergeComp_lookup (ps : List (Int × Row)) (acc : List (Int × Row)) (id : Int) :
+    (ps.foldl mergeComp acc).lookup id
+      = if (ps.filter (fun ip => ip.1 = id)) = [] then acc.lookup id
+        else some ((ps.filter (fun ip => ip.1 = id)).foldl (fun r ip => update r (tupRow ip.2)) (getRow (acc.lookup id))) := by
+  induction ps generalizing acc with
+  | nil => simp
+  | cons ip ps ih =>
+    simp only [List.foldl_cons]
+    rw [ih]
+    by_cases h : ip.1 = id
+    · have hf : (ip :: ps).filter (fun ip => decide (ip.1 = id)) = ip :: ps.filter (fun ip => decide (ip.1 = id)) := by simp [h]
+      have hl : (mergeComp acc ip).lookup id = some (update (getRow (acc.lookup id)) (tupRow ip.2)) := by
+        rw [mergeComp_lookup, if_pos h.symm, h]
+      rw [hf, hl]
+      simp only [List.foldl_cons, getRow, reduceCtorEq, if_false]
+      by_cases he : ps.filter (fun ip => decide (ip.1 = id)) = []
+      · simp [he]
+      · simp [he]
+    · have hf : (ip :: ps).filter (fun ip => decide (ip.1 = id)) = ps.filter (fun ip => decide (ip.1 = id)) := by simp [h]
+      have hl : (mergeComp acc ip).lookup id = acc.lookup id := by
+        rw [mergeComp_lookup, if_neg (fun e => h e.symm)]
+      rw [hf, hl]
+
+theorem mergeComp_keys_nodup (ps : List (Int × Row)) (acc : List (Int × Row)) (h : (acc.map (·.1)).Nodup) :
+    ((ps.foldl mergeComp acc).map (·.1)).Nodup := by
+  induction ps generalizing acc with
+  | nil => simpa
+  | cons ip ps ih => simp only [List.foldl_cons]; exact ih _ (upsert_keys_nodup _ _ _ h)
+
+theorem tupRow_wireDict (rnd : Rat → Rat) (p : PyDict) : tupRow (wireDict rnd p) = normParams rnd p := normParams_eq rnd p
+
+theorem unionParams_eq (rnd : Rat → Rat) (id : Int) (ps : List (Int × PyDict)) :
+    ((ps.map (fun ip => (ip.1, wireDict rnd ip.2))).filter (fun ip => ip.1 = id)).foldl (fun r ip => update r (tupRow ip.2)) []
+      = unionParams rnd id ps := by
+  unfold unionParams
+  rw [List.filter_map, List.foldl_map]
+  simp only [Function.comp_def, tupRow_wireDict]
+
+/-- [phase 3] every id recorded for table `t` has exactly one row: the union of its records in log order -/
+theorem params_union' (rnd : Rat → Rat) (f : Bool) (t : Tbl) (txs : List Tx) (id : Int) (h : id ∈ (paramsOf t txs).map (·.1)) :
+    (id, unionParams rnd id (paramsOf t txs)) ∈ compRows t (txs.map (encodeTx rnd f))
+    ∧ ((compRows t (txs.map (encodeTx rnd f))).map (·.1)).Nodup := by
+  unfold compRows
+  rw [compsOf_encode]
+  constructor
+  · rw [(sortBy_perm ltId _).mem_iff]
+    apply mem_of_lookup
+    rw [foldl_mergeComp_lookup]
+    have hne : ((paramsOf t txs).map (fun ip => (ip.1, wireDict rnd ip.2))).filter (fun ip => decide (ip.1 = id)) ≠ [] := by
+      obtain ⟨ip, hip, rfl⟩ := List.mem_map.mp h
+      intro e
+      have : (ip.1, wireDict rnd ip.2) ∈ ((paramsOf t txs).map (fun ip => (ip.1, wireDict rnd ip.2))).filter (fun q => decide (q.1 = ip.1)) := by
+        simp only [List.mem_filter, decide_eq_true_eq, and_true]
+        exact List.mem_map_of_mem hip
+      rw [e] at this; simp at this
+    rw [if_neg hne]
+    simp only [getRow, List.lookup_nil, unionParams_eq]
+  · exact ((sortBy_perm ltId _).map (·.1)).nodup_iff.mpr (mergeComp_keys_nodup _ [] (by simp))
+
+
+theorem runNoFile_lw (rnd : Rat → Rat) (info : PyDict) (txs : List Tx) (hw : ∀ ir ∈ t4sOf txs, WellFormed ir) :
+    ∃ res, runNoFile rnd true true info txs = .ok res ∧ res.interactions = specInteractionsLW rnd txs := by
+  have h := interactions_encode_lw rnd (.t0 info :: txs) hw
+  simp only [runNoFile, encode, Bool.false_eq_true, if_false, List.singleton_append, readLog, ne_eq, not_true_eq_false, h]
+  exact ⟨_, rfl, rfl⟩
+
+theorem specInteractionsLW_eq (rnd : Rat → Rat) (txs : List Tx) (h : ((t4sOf txs).map (·.1)).Nodup) :
+    specInteractionsLW rnd txs = specInteractions rnd txs := by
+  unfold specInteractionsLW specInteractions
+  rw [lastWins_of_nodup _ h]
+
 end Coba.C07
